@@ -311,7 +311,9 @@ func Solve(u *Unit, o *Obligation, dir string, timeout time.Duration, idx int) {
 			c1, cancel1 := context.WithTimeout(context.Background(), quick+time.Second)
 			r := runSolver(c1, sp, file)
 			cancel1()
-			os.Remove(file)
+			if os.Getenv("GVC_KEEPALL") == "" {
+				os.Remove(file)
+			}
 			if r.answer == "unsat" {
 				o.Solver, o.TimeS = r.solver, r.dur.Seconds()
 				o.Status = "proved"
@@ -447,6 +449,9 @@ func firstLines(s string, n int) string {
 }
 
 func cleanup(base string, specs []SolverSpec, keepOne bool) {
+	if os.Getenv("GVC_KEEPALL") != "" {
+		return
+	}
 	for i, sp := range specs {
 		f := base + "." + sp.Name + ".smt2"
 		if keepOne && i == 0 {
